@@ -318,7 +318,7 @@ func checkC13(c *Ctx, r *Report) {
 	// (b) Send call sites
 	r.Rule("per-attempt-timeout", "every Transport.Send call passes context.WithTimeout/WithDeadline(ctx parameter, …)", 3)
 	for _, fn := range c.LibFuncs() {
-		allInstrs(fn, false, func(in ssa.Instruction) {
+		rawInstrs(fn, false, func(in ssa.Instruction) {
 			if !isCallTo(in, fnTransportSend) {
 				return
 			}
@@ -365,7 +365,7 @@ func checkC13(c *Ctx, r *Report) {
 	for _, fn := range c.LibFuncs() {
 		if len(ctxParamsOf(fn)) == 0 {
 			// functions without any ctx in scope: any ctx they pass is foreign
-			allInstrs(fn, false, func(in ssa.Instruction) {
+			rawInstrs(fn, false, func(in ssa.Instruction) {
 				if cc := asCall(in); cc != nil {
 					for _, a := range cc.Args {
 						if isContextType(a.Type()) {
@@ -380,7 +380,7 @@ func checkC13(c *Ctx, r *Report) {
 			})
 			continue
 		}
-		allInstrs(fn, false, func(in ssa.Instruction) {
+		rawInstrs(fn, false, func(in ssa.Instruction) {
 			cc := asCall(in)
 			if cc == nil {
 				return
@@ -410,7 +410,7 @@ func checkC13(c *Ctx, r *Report) {
 	nFn := 0
 	for _, fn := range c.LibFuncs() {
 		nFn++
-		allInstrs(fn, false, func(in ssa.Instruction) {
+		rawInstrs(fn, false, func(in ssa.Instruction) {
 			switch x := in.(type) {
 			case *ssa.Select:
 				r.Bad(c.FnName(fn)+"|select", in.Pos(), "select statement in library code (unbounded wait unless it has a ctx arm)")
